@@ -238,6 +238,12 @@ func c01Main(rc *RunCtx) {
 				a.ResetAfter = true
 			}
 		}
+		if c.kind == TkDoQ && simrt.Choose(3) == 0 {
+			// DoQ: one stream per query, the ID on the wire is 0 by convention; a
+			// server that answers with another ID must not change what the caller gets
+			a.ForceID = uint16(1 + simrt.Choose(65535))
+			simrt.Fault("doq_reply_with_nonzero_id")
+		}
 		if c.kind == TkUDP && !sc.Stream && simrt.Choose(100) < c.pTC {
 			a.TC = true // udp:// falls back to TCP, whose server answers or dies (below)
 			simrt.Fault("udp_reply_truncated")
